@@ -153,7 +153,7 @@ def pressure_cases(draw):
   victim = draw(st.integers(0, nd - 1))
   ops = []
   for d in range(nd):
-    if d != victim or draw(st.booleans()):
+    if (d != victim and draw(st.integers(0, 3))) or (d == victim and draw(st.booleans())):
       ops.append(['connect_ok', d])
   if draw(st.booleans()):
     ops.append(['pause', victim])
@@ -162,8 +162,9 @@ def pressure_cases(draw):
     ops.append(['advance', draw(st.sampled_from([0.0001, 0.01, 0.01, 1.0]))])
     if draw(st.integers(0, 7)) == 0:
       ops.append(['recv_connect'])
-  for _ in range(draw(st.integers(0, 6))):
-    k = draw(st.integers(0, 7))
+  for _ in range(draw(st.integers(0, 14))):
+    k = draw(st.integers(0, 11))
+    other = draw(st.integers(0, nd - 1))
     if k <= 1:
       ops.append(['lost', victim])
     elif k == 2:
@@ -172,14 +173,57 @@ def pressure_cases(draw):
       ops.append(['connect_ok', victim])
     elif k == 4:
       ops.append(['resume', victim])
-    elif k == 5:
-      ops.append(['burst', draw(st.sampled_from([1, 3, 8]))])
+    elif k <= 6:
+      ops.append(['burst', draw(st.sampled_from([1, 3, 8, 20]))])
+    elif k == 7:
+      ops.append(['connect_ok', other])
+    elif k == 8:
+      ops.append(['lost', other])
+    elif k == 9:
+      ops.append(['pause', other])
     else:
       ops.append(['advance', draw(st.sampled_from([0.01, 1.0, 6.0]))])
   return {'side': 'relay', 'ndest': nd, 'protocol': draw(st.sampled_from(['pickle', 'line'])),
           'max_queue': draw(st.integers(1, 12)), 'batch': draw(st.integers(1, 15)),
           'low_pct': draw(st.sampled_from([0.2, 0.5, 0.8])), 'hard_pct': draw(st.sampled_from([1.0, 1.25, 2])),
           'flow': True, 'dynamic': draw(st.sampled_from([True, True, False])), 'max_retries': draw(st.sampled_from([1, 1, 2])),
+          'receivers': draw(st.integers(1, 2)), 'ops': ops, 'quiesce': draw(st.sampled_from(['as-is', 'as-is', 'all-up']))}
+
+
+@st.composite
+def failover_cases(draw):
+  """fail-over histories: only some destinations are up at first, one fills and pauses the receivers, goes away
+  (possibly as the last routed destination), another one comes up later, fills and drains."""
+  nd = draw(st.integers(2, 4))
+  first_up = draw(st.integers(0, nd - 1))
+  later = [d for d in range(nd) if d != first_up]
+  ops = [['connect_ok', first_up]]
+  if draw(st.booleans()):
+    ops.append(['pause', first_up])
+  for _ in range(draw(st.integers(1, 4))):
+    ops.append(['burst', draw(st.sampled_from([2, 3, 5, 8, 20]))])
+  if draw(st.booleans()):
+    ops.append(['advance', draw(st.sampled_from([0.0001, 0.01]))])
+  ops.append(draw(st.sampled_from([['lost', first_up], ['lost', first_up], ['advance', 1.0]])))
+  if draw(st.booleans()):
+    ops.append(['recv_connect'])
+  nxt = draw(st.sampled_from(later))
+  ops.append(['connect_ok', nxt])
+  if draw(st.booleans()):
+    ops.append(['pause', nxt])
+  for _ in range(draw(st.integers(1, 4))):
+    ops.append(['burst', draw(st.sampled_from([2, 3, 5, 8, 20]))])
+  if draw(st.booleans()):
+    ops.append(['resume', nxt])
+  for _ in range(draw(st.integers(1, 3))):
+    ops.append(['advance', draw(st.sampled_from([0.0001, 0.01, 1.0]))])
+  for _ in range(draw(st.integers(0, 4))):
+    ops.append(draw(st.sampled_from([['connect_fail', first_up], ['connect_ok', first_up], ['advance', 6.0], ['burst', 3],
+                                     ['lost', nxt], ['connect_ok', later[-1]]])))
+  return {'side': 'relay', 'ndest': nd, 'protocol': draw(st.sampled_from(['pickle', 'line'])),
+          'max_queue': draw(st.integers(1, 8)), 'batch': draw(st.integers(1, 15)),
+          'low_pct': draw(st.sampled_from([0.2, 0.5, 0.8])), 'hard_pct': draw(st.sampled_from([1.0, 1.25, 2])),
+          'flow': True, 'dynamic': draw(st.sampled_from([True, True, True, False])), 'max_retries': draw(st.sampled_from([1, 1, 2])),
           'receivers': draw(st.integers(1, 2)), 'ops': ops, 'quiesce': draw(st.sampled_from(['as-is', 'as-is', 'all-up']))}
 
 
@@ -258,4 +302,5 @@ def run(ctx):
   enumerate_cache(ctx)
   run_given(ctx, cache_cases(), execute, ctx.scale(1000, 4500), salt=1)
   run_given(ctx, relay_cases(), execute, ctx.scale(700, 3000), salt=2)
-  run_given(ctx, pressure_cases(), execute, ctx.scale(900, 4000), salt=3)
+  run_given(ctx, pressure_cases(), execute, ctx.scale(700, 4000), salt=3)
+  run_given(ctx, failover_cases(), execute, ctx.scale(500, 3000), salt=4)
